@@ -426,7 +426,7 @@ def verdict_code(outcome):
 class CorruptFamily(Family):
     prelude = c05.PRELUDE + "\nFrom TskVerif Require Import C10.Corrupt."
     timeout = 600.0
-    shard = 4
+    shard = 1
     workers = 8
     coq_timeout = 1500
 
@@ -620,7 +620,8 @@ class Subst(CorruptFamily):
         for k, ((pos, val), c) in enumerate(zip(eds, codes)):
             if c in ("hang", "adapter"):
                 continue
-            if c == "crash" or pos < 64 + 128 or lay.desc_end - 128 <= pos < lay.desc_end or (pos * 7 + val) % 5 == 0:
+            if c == "crash" or pos < 64 + 128 or lay.desc_end - 128 <= pos < lay.desc_end or \
+                    (pos * 7 + val) % case.get("coq_stride", 8) == 0:
                 keep.append("(%d, %d, %s)" % (pos, val, vcode(c, e["api"])))
         return ("(let f := %s in forallb (fun e => match e with (p, v, c) => "
                 "verdict_agrees (load_verdict %s %s (subst_byte f p v)) c end) [%s])"
